@@ -495,15 +495,18 @@ class CooperativeAwarenessMessage:
         dict
             Position confidence ellipse value.
         """
+        # SemiAxisLength: 0..4093 in cm, 4094 = outOfRange, 4095 = unavailable
+        semi_x = min(4094, max(0, int(epx * 100)))
+        semi_y = min(4094, max(0, int(epy * 100)))
         position_confidence_ellipse = {
-            "semiMajorAxisLength": int(epx * 100),
-            "semiMinorAxisLength": int(epy * 100),
+            "semiMajorAxisLength": semi_x,
+            "semiMinorAxisLength": semi_y,
             "semiMajorAxisOrientation": 0,
         }
         if epy >= epx:
             position_confidence_ellipse = {
-                "semiMajorAxisLength": int(epy * 100),
-                "semiMinorAxisLength": int(epx * 100),
+                "semiMajorAxisLength": semi_y,
+                "semiMinorAxisLength": semi_x,
                 "semiMajorAxisOrientation": 0,
             }
         return position_confidence_ellipse
